@@ -32,7 +32,8 @@ ANCHORS = ['recursiveloader:ManifestRecursiveLoader.save_manifest',
            'openpgp:SystemGPGEnvironment.verify_file']
 REQUIRED = ['openpgp:SystemGPGEnvironment.clear_sign_file', 'late_retries',
             'signer_checked:second', 'expect:signed',
-            'expect:plain', 'expect:failure', 'gpg_verify_runs', 'submanifests_read']
+            'expect:plain', 'expect:failure', 'gpg_verify_runs', 'submanifests_read',
+            'behind_cases', 'overlong_line_cases_nonascii']
 ASSUMPTIONS = ['GnuPG 2.2 with gpg-agent; vendored test key (tests/keydata.py)',
                'on a signing failure the top-level file may be left empty/truncated; a '
                'plain Manifest WITH entries counts as silently unsigned']
@@ -43,7 +44,8 @@ _homes = {}
 
 
 def units(tier, seed):
-    return [{'k': 'gen', 'i': i, 'n': PER_UNIT} for i in range(N[tier] // PER_UNIT)]
+    return [{'k': 'gen', 'i': i, 'n': PER_UNIT} for i in range(N[tier] // PER_UNIT)] + \
+        [{'k': 'behind', 'i': i} for i in range(2 if tier == 'quick' else 12)]
 
 
 def setup_worker(ctx):
@@ -138,8 +140,13 @@ def _judge(ctx, root, case, sign, orig_signed, keyid, hk, top_name, top, h, sign
         # so signing has to be refused
         longline = True
         ctx.count('overlong_line_cases')
-        with open(top, 'a') as f:
-            f.write('DIST %s 1 MD5 %s\n' % ('d' * 21000, 'ab' * 16))
+        name = 'd' * 21000
+        if (len(case['skel']['nodes']) // 4) % 2 == 1:
+            # fewer characters than the limit, more bytes (the limit is one of bytes)
+            name = '\u00e9' * 400 + 'd' * 19400
+            ctx.count('overlong_line_cases_nonascii')
+        with open(top, 'a', encoding='utf8') as f:
+            f.write('DIST %s 1 MD5 %s\n' % (name, 'ab' * 16))
     expect = 'plain' if not expect_signed else (
         'signed' if can_sign and not longline else 'failure')
     want_fpr = keys.KEY_FINGERPRINT
@@ -444,7 +451,85 @@ def gen_case(rng, root):
     return case
 
 
+def exec_behind(ctx, case):
+    """State carried on a long-lived loader: the top-level Manifest is (re)loaded on
+    the same loader after somebody signed it on disk (or was signed from the start and
+    is loaded a second time); the sign option is unset.  What was LOADED with a valid
+    signature has to be saved signed."""
+    from gemato.openpgp import SystemGPGEnvironment
+    from gemato.recursiveloader import ManifestRecursiveLoader
+    from gemato import cli as gcli
+    h = home('secret')
+    with common.Scratch('vf-c14b-') as d:
+        root = os.path.join(d, 't')
+        os.makedirs(os.path.join(root, 'sub'))
+        for rel, data in (('a', b'1'), ('sub/b', b'22'), ('c d', b'333')):
+            with open(os.path.join(root, rel), 'wb') as f:
+                f.write(data)
+        os.environ['GNUPGHOME'] = h.dir
+        try:
+            argv = ['gemato', 'create', '--hashes', 'SHA256', '-S', root]
+            if case['start'] == 'signed':
+                argv = ['gemato', 'create', '--hashes', 'SHA256', '-s', '-k',
+                        keys.KEY_ID, root]
+            if gcli.main(argv) != 0:
+                ctx.count('harness_error')
+                return
+            top = os.path.join(root, 'Manifest')
+            env = SystemGPGEnvironment()
+            m = ManifestRecursiveLoader(top, verify_openpgp=True, openpgp_env=env,
+                                        hashes=['SHA256'])
+            if case['start'] == 'unsigned':
+                with open(top) as f:
+                    body = f.read()
+                with open(top, 'w') as f:
+                    f.write(h.clearsign(body, keys.KEY_ID))
+            for _ in range(case['reloads']):
+                m.load_manifest('Manifest')
+            ctx.case(sig=('behind', case['start'], case['reloads'], case['edit']),
+                     case=case, klass='behind')
+            if not m.loaded_manifests['Manifest'].openpgp_signed:
+                ctx.count('behind_reload_not_signed')
+                return
+            with open(os.path.join(root, case['edit']), 'wb') as f:
+                f.write(b'changed-content')
+            try:
+                m.update_entries_for_directory('')
+                m.save_manifests()
+            except Exception as exc:
+                ctx.violation('resigned-tree-save-raises:' + adapt.exc_key(exc),
+                              'save on a loader whose top-level Manifest was loaded with '
+                              'a valid signature raised %r' % (exc,), case)
+                return
+            ctx.count('behind_cases')
+            with open(top) as f:
+                text = f.read()
+            if not is_signed_text(text):
+                ctx.violation('signed-tree-written-plain:reloaded-on-long-lived-loader',
+                              'the top-level Manifest was loaded with a valid signature '
+                              '(start: %s, %d reload(s) on the same loader), the sign '
+                              'option is unset, and the saved top-level Manifest is plain'
+                              % (case['start'], case['reloads']), case)
+                return
+            rc, out, status = h.decrypt(text.encode('utf8'))
+            if rc != 0 or 'GOODSIG' not in status:
+                ctx.violation('saved-signature-does-not-verify:reloaded', 'gpg rc %r'
+                              % (rc,), case)
+        finally:
+            os.environ.pop('GNUPGHOME', None)
+
+
+def run_behind(u, ctx):
+    for start in ('unsigned', 'signed'):
+        for reloads in ((1, 2) if start == 'unsigned' else (0, 1)):
+            for edit in ('a', 'sub/b'):
+                exec_behind(ctx, {'kind': 'behind', 'start': start, 'reloads': reloads,
+                                  'edit': edit, 'i': u['i']})
+
+
 def run_unit(u, ctx):
+    if u.get('k') == 'behind':
+        return run_behind(u, ctx)
     for j in range(u['n']):
         rng = common.rng_for(ctx.seed, ID, u['i'], j)
         with common.Scratch('vf-c14-') as d:
@@ -461,6 +546,8 @@ def run_unit(u, ctx):
 
 
 def replay(case, ctx):
+    if case.get('kind') == 'behind':
+        return exec_behind(ctx, case)
     with common.Scratch('vf-c14-') as d:
         root = os.path.join(d, 't')
         scenario.rebuild(root, case)
